@@ -2272,8 +2272,8 @@ impl Server {
         let min_score = match &parts[2] {
             RespFrame::BulkString(Some(bytes)) => {
                 match String::from_utf8_lossy(bytes).parse::<f64>() {
-                    Ok(n) => n,
-                    Err(_) => return Ok(RespFrame::error("ERR min or max is not a float")),
+                    Ok(n) if !n.is_nan() => n,
+                    _ => return Ok(RespFrame::error("ERR min or max is not a float")),
                 }
             }
             _ => return Ok(RespFrame::error("ERR invalid min score format")),
@@ -2283,8 +2283,8 @@ impl Server {
         let max_score = match &parts[3] {
             RespFrame::BulkString(Some(bytes)) => {
                 match String::from_utf8_lossy(bytes).parse::<f64>() {
-                    Ok(n) => n,
-                    Err(_) => return Ok(RespFrame::error("ERR min or max is not a float")),
+                    Ok(n) if !n.is_nan() => n,
+                    _ => return Ok(RespFrame::error("ERR min or max is not a float")),
                 }
             }
             _ => return Ok(RespFrame::error("ERR invalid max score format")),
@@ -2336,8 +2336,8 @@ impl Server {
         let max_score = match &parts[2] {
             RespFrame::BulkString(Some(bytes)) => {
                 match String::from_utf8_lossy(bytes).parse::<f64>() {
-                    Ok(n) => n,
-                    Err(_) => return Ok(RespFrame::error("ERR min or max is not a float")),
+                    Ok(n) if !n.is_nan() => n,
+                    _ => return Ok(RespFrame::error("ERR min or max is not a float")),
                 }
             }
             _ => return Ok(RespFrame::error("ERR invalid max score format")),
@@ -2347,8 +2347,8 @@ impl Server {
         let min_score = match &parts[3] {
             RespFrame::BulkString(Some(bytes)) => {
                 match String::from_utf8_lossy(bytes).parse::<f64>() {
-                    Ok(n) => n,
-                    Err(_) => return Ok(RespFrame::error("ERR min or max is not a float")),
+                    Ok(n) if !n.is_nan() => n,
+                    _ => return Ok(RespFrame::error("ERR min or max is not a float")),
                 }
             }
             _ => return Ok(RespFrame::error("ERR invalid min score format")),
@@ -2400,10 +2400,8 @@ impl Server {
         let min_score = match &parts[2] {
             RespFrame::BulkString(Some(bytes)) => {
                 match String::from_utf8_lossy(bytes).parse::<f64>() {
-                    Ok(n)
-
- => n,
-                    Err(_) => return Ok(RespFrame::error("ERR min or max is not a float")),
+                    Ok(n) if !n.is_nan() => n,
+                    _ => return Ok(RespFrame::error("ERR min or max is not a float")),
                 }
             }
             _ => return Ok(RespFrame::error("ERR invalid min score format")),
@@ -2413,8 +2411,8 @@ impl Server {
         let max_score = match &parts[3] {
             RespFrame::BulkString(Some(bytes)) => {
                 match String::from_utf8_lossy(bytes).parse::<f64>() {
-                    Ok(n) => n,
-                    Err(_) => return Ok(RespFrame::error("ERR min or max is not a float")),
+                    Ok(n) if !n.is_nan() => n,
+                    _ => return Ok(RespFrame::error("ERR min or max is not a float")),
                 }
             }
             _ => return Ok(RespFrame::error("ERR invalid max score format")),
